@@ -361,7 +361,8 @@ class CallMixin:
                 return f'{obj}.p[0]'
             if m == 'back':
                 return f'{obj}.p[{obj}.n - 1]'
-            if m == 'reserve':
+            reserved = fam == 'vector' and obj in self.spec.options.get('model_reserve', '').split(',')
+            if m == 'reserve' and not reserved:
                 return '((void)0)'
             if m in ('shrink_to_fit',):
                 return '((void)0)'
@@ -371,10 +372,12 @@ class CallMixin:
                     return f'{pre}_resize({addr(obj)}, {A(0)})'
                 if m == 'resize' and len(args) == 2:
                     return f'{pre}_resize_fill({addr(obj)}, {A(0)}, {self.value_of(args[1])})'
+                if m == 'reserve':   # @option model_reserve: capacity is modelled, push_back below capacity keeps the storage
+                    return f'{pre}_reserve({addr(obj)}, {A(0)})'
                 if m == 'clear':
                     return f'{pre}_clear({addr(obj)})'
                 if m in ('push_back', 'emplace_back') and len(args) == 1:
-                    return f'{pre}_push_back({addr(obj)}, {self.value_of(args[0])})'
+                    return f'{pre}_push_back{"_reserved" if reserved else ""}({addr(obj)}, {self.value_of(args[0])})'
                 if m == 'pop_back':
                     return f'{pre}_pop_back({addr(obj)})'
                 if m == 'pop_front':
